@@ -8,7 +8,10 @@ import (
 	"verif/harness/gen"
 	"verif/harness/obs"
 
+	"github.com/z7zmey/php-parser/pkg/ast"
+	"github.com/z7zmey/php-parser/pkg/conf"
 	"github.com/z7zmey/php-parser/pkg/errors"
+	"github.com/z7zmey/php-parser/pkg/parser"
 )
 
 // C06 — malformed input is always reported; a silent parse is a complete parse.
@@ -135,6 +138,49 @@ func checkCallbackIndependence(c *core.Ctx, src []byte, ver string, with obs.Par
 	return true
 }
 
+// checkReentrancy parses src with a callback that itself parses another source (a second lexer
+// and parser alive while the first one is suspended in its error report): the outer tree and
+// errors must be what they are without the nested parse, and so must the nested result.
+func checkReentrancy(c *core.Ctx, src []byte, ver string, plain obs.ParseResult) bool {
+	if len(plain.Errors) == 0 || plain.Panic != nil || core.Hash64(src)%3 != 0 {
+		return true
+	}
+	other := []byte("<?php\nfunction f($a) {\n  return \"x $a\" . <<<A\n  b\nA;\n}\n$b = [1,\n 2];\n) ;\n")
+	otherAlone := obs.Parse(append([]byte(nil), other...), "7.4", true)
+	var nested []obs.ParseResult
+	var errs []*errors.Error
+	cfg := conf.Config{Version: obs.Ver(ver)}
+	cfg.ErrorHandlerFunc = func(e *errors.Error) {
+		errs = append(errs, e)
+		if len(nested) < 3 {
+			nested = append(nested, obs.Parse(append([]byte(nil), other...), "7.4", true))
+		}
+	}
+	var root ast.Vertex
+	pn := obs.Try(func() { root, _ = parser.Parse(append([]byte(nil), src...), cfg) })
+	c.Add("nested_parse_from_callback_cases", 1)
+	w := core.W(src, ver).With("scenario", "a second parse is run from inside the error callback")
+	if pn != nil {
+		c.Violation(pn.Sig+"|nested-parse", "Parse panicked when the error callback ran a nested parse: "+pn.Msg, w)
+		return false
+	}
+	if d := obs.DiffPath(plain.Root, root); d != "" {
+		c.Violation("reentrancy|outer-tree-differs|"+d, "the tree of a parse whose error callback ran another parse differs from the tree of the plain parse: "+d, w)
+		return false
+	}
+	if a, b := strings.Join(obs.ErrStrings(plain.Errors), "|"), strings.Join(obs.ErrStrings(errs), "|"); a != b {
+		c.Violation("reentrancy|outer-errors-differ", "errors differ when the callback runs a nested parse: "+obs.FirstDiff(a, b), w)
+		return false
+	}
+	for _, n := range nested {
+		if d := obs.DiffPath(otherAlone.Root, n.Root); d != "" || n.Panic != nil {
+			c.Violation("reentrancy|nested-tree-differs|"+d, "a parse run from inside an error callback yields a different tree than when run alone: "+d, w)
+			return false
+		}
+	}
+	return true
+}
+
 // c06Input: error shapes, callback independence, completeness of silent parses.
 func c06Input(c *core.Ctx, src []byte, ver string) (nerr int, ok bool) {
 	c.Inflight(src, "C06 parse "+ver)
@@ -145,6 +191,9 @@ func c06Input(c *core.Ctx, src []byte, ver string) (nerr int, ok bool) {
 	}
 	ok = checkErrorShapes(c, src, ver, pr.Errors)
 	if !checkCallbackIndependence(c, src, ver, pr) {
+		ok = false
+	}
+	if !checkReentrancy(c, src, ver, pr) {
 		ok = false
 	}
 	if len(pr.Errors) == 0 {
